@@ -125,14 +125,22 @@ func H_TeardownReady() {
 	}
 }
 
+// actorOps: the number of concurrent actor operations.  The thorough tier is the union of two
+// explorations: 2 operations under the larger delay bound (registry: 2), and 3 operations under the
+// quick delay bound (1).
+func actorOps() int {
+	if verif.Tier() == "thorough" && verif.Choose("moreOps", 2) == 1 {
+		verif.SetPreemptions(1)
+		return 3
+	}
+	return 2
+}
+
 // H_TeardownAndDestroy (threads): TeardownAndDestroy against a concurrent actor.
 func H_TeardownAndDestroy() {
 	ctx := context.Background()
 	core, st, nm := setup(ctx)
-	nops := 2
-	if verif.Tier() == "thorough" {
-		nops = 3
-	}
+	nops := actorOps()
 	done := false
 	var terr error
 	go func() {
@@ -171,10 +179,7 @@ func H_TeardownAndDestroy() {
 func H_WatchFor() {
 	ctx := context.Background()
 	core, st, nm := setup(ctx)
-	nops := 2
-	if verif.Tier() == "thorough" {
-		nops = 3
-	}
+	nops := actorOps()
 	cond := verif.Choose("condition", 2)
 	matches := func(r resource.Resource) bool {
 		if r == nil {
@@ -234,10 +239,7 @@ func H_WatchFor() {
 func H_ContextWithTeardown() {
 	ctx := context.Background()
 	core, st, nm := setup(ctx)
-	nops := 2
-	if verif.Tier() == "thorough" {
-		nops = 3
-	}
+	nops := actorOps()
 	tctx, err := st.ContextWithTeardown(ctx, ptr())
 	verif.Assert(err == nil, "ContextWithTeardown succeeds")
 	n := verif.Choose("actorOps", nops+1)
